@@ -74,7 +74,7 @@ def _is_product(rho: np.ndarray, dim: int | list[int] = None) -> list[int, bool]
         dim = np.array(dim)
 
     # Allow the user to enter a single number for dim.
-    if isinstance(dim, float):
+    if isinstance(dim, (int, float, np.integer)):
         num_sys = 1
     else:
         num_sys = len(dim)
@@ -123,6 +123,10 @@ def _operator_is_product(rho: np.ndarray, dim: int | list[int] = None) -> list[i
 
     if isinstance(dim, list):
         dim = np.array(dim)
+
+    # Allow the user to enter a single number for `dim` if `rho` is square.
+    if isinstance(dim, (int, float, np.integer)):
+        dim = np.array([dim, len(rho) // dim]).astype(int)
 
     num_sys = len(dim)
 
